@@ -184,8 +184,14 @@ impl Server {
 
     /// Waits until every notification sent so far has been processed.
     pub fn sync(&mut self) -> Result<(), Death> {
-        self.request("workspace/symbol", json!({"query": "\u{1}no-such-symbol"}))
-            .map(|_| ())
+        // a barrier: notifications have no response, this request is answered after they have been handled. It is a
+        // hover in a file that does not exist, which no analysis result has anything to say about (a request that
+        // walks the project, like workspace/symbol, could itself be what leaves state behind)
+        self.request(
+            "textDocument/hover",
+            json!({"textDocument": {"uri": uri("__barrier__.asm")}, "position": {"line": 0, "character": 0}}),
+        )
+        .map(|_| ())
     }
 
     pub fn did_open(&mut self, file: &str, text: &str) {
